@@ -173,3 +173,130 @@ End RrPrims.
 Record with_rng (S : Type) := { rs_st : S; rs_rng : list nat }.
 Arguments rs_st {S} _.
 Arguments rs_rng {S} _.
+(* ---- appended for lfu_cache (tools/cpp2coq_lfu.py): containers whose mapped values are
+   std::list iterators, and std::multimap<size_t, list iterator> with the iterator model of
+   LfudaLit.v (a multimap iterator is the list node its pair refers to; None = end()/singular) ---- *)
+Require Import Capp.LfudaLit.
+Section GenPrimsLfu.
+  Local Open Scope string_scope.
+  Local Open Scope list_scope.
+
+  (* a std::list iterator handed to emplace(...) as the MAPPED value of m_keyed_elements / m_lfu_list:
+     the formal containers keep node identities, in which end() has no representation; storing it is
+     therefore reported (conservatively) as undefined *)
+  Definition it_node (i : iter) : res nat :=
+    match i with
+    | It n => Ok n
+    | End => UB "end() stored as a mapped list iterator: not representable in the formal container"
+    end.
+
+  (* m_lfu_list.begin() is mm_begin of the generic multimap section below *)
+
+  (* it->second through a multimap iterator (it->first is mm_deref of LfudaLit.v) *)
+  Definition mm_second (m : list (nat * nat)) (it : option nat) : res nat :=
+    match it with
+    | None => UB "dereference of end() / a singular multimap iterator"
+    | Some n => match mm_count n m with Some _ => Ok n | None => UB "dereference of an erased multimap iterator" end
+    end.
+
+  (* std::optional<std::pair<V, B>>{std::make_pair(cell, b)} for a value cell: as for
+     std::optional<V>{cell}, a never-assigned cell (None: a default-constructed V, which V does not
+     represent) gives None *)
+  Definition cell_pair {A B} (a : option A) (b : B) : option (A * B) :=
+    match a with Some v => Some (v, b) | None => None end.
+End GenPrimsLfu.
+(* ==== std::map<K, T> and std::list<T> with dynamically created nodes (ut_map.hpp, ut_set.hpp) ====
+   A std::map is an association list (its iteration order is never observed); an iterator into it is
+   the key of its node, None = end() (as for the index above).  A std::list<T> whose nodes are created
+   by emplace_back and destroyed by erase is the sequence of its node identities (list nat, the formal
+   std::list of LruLit.v), a store giving the element of each live node (list (nat * T)), and a counter
+   handing out fresh identities.  A list iterator STORED in a structure field whose formal type is
+   [option nat] is the identity of its node, None = singular. *)
+Section GenPrimsMap.
+  Context {K : Type} `{EqDec K}.
+  Local Open Scope string_scope.
+  Local Open Scope list_scope.
+  Local Open Scope nat_scope.
+
+  (* it->second as an lvalue (binding a reference to the mapped object): it must point at a live node *)
+  Definition map_ref {A} (m : list (K * A)) (it : option K) : res K :=
+    match it with
+    | None => UB "dereference of end() of the map"
+    | Some k => match assoc k m with Some _ => Ok k | None => UB "dereference of an erased map iterator" end
+    end.
+  (* a read through a reference to the mapped object of the node of key k *)
+  Definition map_get {A} (m : list (K * A)) (k : K) : res A :=
+    match assoc k m with Some a => Ok a | None => UB "use of a reference into an erased map node" end.
+  (* map.emplace(key, obj): no insertion when the key is present; never invalidates iterators *)
+  Definition map_emplace {A} (m : list (K * A)) (k : K) (a : A) : list (K * A) :=
+    match assoc k m with Some _ => m | None => m ++ [(k, a)] end.
+  (* map.erase(iterator) *)
+  Definition map_erase_it {A} (m : list (K * A)) (it : option K) : res (list (K * A)) :=
+    match it with
+    | None => UB "map erase of end()"
+    | Some k => match assoc k m with Some _ => Ok (remk k m) | None => UB "map erase through an erased iterator" end
+    end.
+  (* a map iterator stored in a field whose formal type is K (the key of the node): end() has no such form *)
+  Definition mit_key (it : option K) : res K :=
+    match it with Some k => Ok k | None => UB "end() of the map stored where only node iterators are representable" end.
+End GenPrimsMap.
+
+(* reading / writing a stored list iterator *)
+Definition it_load (p : option nat) : res iter :=
+  match p with Some n => Ok (It n) | None => UB "use of a singular list iterator"%string end.
+Definition it_store (i : iter) : res (option nat) :=
+  match i with It n => Ok (Some n) | End => UB "end() of the list stored where only node iterators are representable"%string end.
+(* the element of a live list node *)
+Definition node_get {T} (nodes : list (nat * T)) (n : nat) : res T :=
+  match assoc n nodes with Some t => Ok t | None => UB "list node without element"%string end.
+(* list.erase(it): it must be dereferenceable; the node is destroyed *)
+Definition l_erase_node (l : list nat) (i : iter) : res (nat * list nat) :=
+  match i with
+  | End => UB "list erase of end()"%string
+  | It n => if mem_nat n l then Ok (n, remove_nat n l) else UB "list erase through an invalid iterator"%string
+  end.
+(* the nodes before position i, and those from i on; None when i is not a position of l *)
+Fixpoint split_at (i : iter) (l : list nat) : option (list nat * list nat) :=
+  match l with
+  | [] => match i with End => Some ([], []) | It _ => None end
+  | x :: r => if iter_eqb i (It x) then Some ([], l)
+              else match split_at i r with Some (p, q) => Some (x :: p, q) | None => None end
+  end.
+(* list.erase(first, last): [first, last) must be a range of the list; answers the remaining list and the destroyed nodes *)
+Definition l_erase_nodes (l : list nat) (a b : iter) : res (list nat * list nat) :=
+  match split_at a l with
+  | None => UB "list erase(first, last): first is not an iterator of the list"%string
+  | Some (pre, rest) =>
+      match split_at b rest with
+      | None => UB "list erase(first, last): last is not reachable from first"%string
+      | Some (mid, post) => Ok ((pre ++ post)%list, mid)
+      end
+  end.
+(* the store after the nodes [ids] were destroyed *)
+Definition drop_nodes {T} (ids : list nat) (nodes : list (nat * T)) : list (nat * T) :=
+  filter (fun p => negb (mem_nat (fst p) ids)) nodes.
+(* size_t a - b is usub (above): wrapping below zero is reported rather than computed modulo 2^64 *)
+
+(* ---- std::multimap<T, size_t> in the formal STL of TtlLit.v / LfudaLit.v: the content in iteration
+   order; a node is identified by its mapped value, so an iterator is [Some n] = the node whose mapped
+   value is n (valid iff such a node is present), [None] = end() or singular.  (erase(iterator) and
+   emplace at the upper bound are ord_erase / mm_emplace_z of TtlLit.v.) ---- *)
+Section MMap.
+  Context {A : Type}.
+  Local Open Scope string_scope.
+  (* begin() *)
+  Definition mm_begin (o : list (A * nat)) : option nat :=
+    match o with [] => None | (_, n) :: _ => Some n end.
+  Fixpoint mm_node (n : nat) (o : list (A * nat)) : option (A * nat) :=
+    match o with [] => None | (a, x) :: r => if Nat.eqb n x then Some (a, x) else mm_node n r end.
+  (* *it, it->first, it->second *)
+  Definition mm_it_deref (o : list (A * nat)) (it : option nat) : res (A * nat) :=
+    match it with
+    | None => UB "dereference of end() of the multimap"
+    | Some n => match mm_node n o with Some p => Ok p | None => UB "dereference of an erased multimap iterator" end
+    end.
+  Definition mm_it_first (o : list (A * nat)) (it : option nat) : res A :=
+    do p <- mm_it_deref o it; Ok (fst p).
+  Definition mm_it_second (o : list (A * nat)) (it : option nat) : res nat :=
+    do p <- mm_it_deref o it; Ok (snd p).
+End MMap.
